@@ -351,7 +351,11 @@ func c12Worker(c *mc.Ctx) {
 				Detail: fmt.Sprintf("seed %s, %s: %s", seed.name, mut, detail)})
 		}
 	}
-	for _, seed := range c12Seeds(c.Quick()) {
+	seeds := c12Seeds(c.Quick())
+	if os.Getenv("C12_ONLY") == "packages" { // development aid: the real-binary axis alone
+		seeds = nil
+	}
+	for _, seed := range seeds {
 		seed := seed
 		toks := loxTokens(seed.files[seed.main])
 		join := func(ts []string) string { return strings.Join(ts, "") }
@@ -517,7 +521,9 @@ func c12Worker(c *mc.Ctx) {
 		}
 	}
 	// Go side: deviations of bound 1 around a well-formed user package (fast ParseGo).
-	c12GoAxis(c, ws, &n)
+	if os.Getenv("C12_ONLY") != "packages" {
+		c12GoAxis(c, ws, &n)
+	}
 	// Go-package axis through the real binary.
 	c12Packages(c, ws)
 }
@@ -582,7 +588,7 @@ func c12PackageMenu() []pkgConfig {
 	stale := func(name string, files map[string]string) pkgConfig {
 		return pkgConfig{name: name, files: files, mod: true, expectOK: true, sameAsValid: true}
 	}
-	return []pkgConfig{
+	menu := []pkgConfig{
 		ok("valid", map[string]string{"g.lox": pkgLox, "user.go": pkgUserOK}),
 		{name: "no-go-mod", files: map[string]string{"g.lox": pkgLox, "user.go": pkgUserOK}, mod: false},
 		bad("no-go-file", map[string]string{"g.lox": pkgLox}),
@@ -638,6 +644,39 @@ func c12PackageMenu() []pkgConfig {
 		bad("all-go-files-excluded-by-constraint", map[string]string{"g.lox": pkgLox, "user.go": "//go:build ignore\n\n" + pkgUserOK}),
 		bad("embed-missing-file", map[string]string{"g.lox": pkgLox, "user.go": strings.Replace(pkgUserOK, "package p\n", "package p\n\nimport _ \"embed\"\n\n//go:embed nosuchfile.txt\nvar data string\n", 1)}),
 	}
+	// Output faults: the environment refuses to take one or more of the three
+	// generated files (every non-empty subset), because a directory sits at the
+	// file's path or the path is a symbolic link into a directory that does not
+	// exist. The run cannot produce all three files, so it must fail loudly. A
+	// link to a writable file elsewhere is no fault: the output goes through it.
+	gens := []string{"base.gen.go", "lexer.gen.go", "parser.gen.go"}
+	for mask := 1; mask < 8; mask++ {
+		for _, kind := range []string{"dir", "dangling", "link"} {
+			files := map[string]string{"g.lox": pkgLox, "user.go": pkgUserOK}
+			name := "output-" + kind
+			for i, g := range gens {
+				if mask&(1<<i) == 0 {
+					continue
+				}
+				name += "-" + strings.TrimSuffix(g, ".gen.go")
+				switch kind {
+				case "dir":
+					files[g+"/keep.txt"] = "in the way\n"
+				case "dangling":
+					files[g] = "symlink:nosuchdir/" + g
+				case "link":
+					files["elsewhere/"+g+".txt"] = pkgFiller("p", 3000, true)
+					files[g] = "symlink:elsewhere/" + g + ".txt"
+				}
+			}
+			if kind == "link" {
+				menu = append(menu, stale(name, files))
+			} else {
+				menu = append(menu, bad(name, files))
+			}
+		}
+	}
+	return menu
 }
 
 // pkgFiller is a well-formed Go file of about n lines that a run of lox must
@@ -681,9 +720,19 @@ func c12Packages(c *mc.Ctx, ws *pipe.Workspace) {
 		dir := filepath.Join(ws.Root, "pkg", pc.name)
 		os.RemoveAll(filepath.Join(ws.Root, "pkg"))
 		os.MkdirAll(dir, 0o777)
-		for n, t := range pc.files {
+		var names []string
+		for n := range pc.files {
+			names = append(names, n)
+		}
+		sort.Strings(names)
+		for _, n := range names {
+			t := pc.files[n]
 			p := filepath.Join(dir, n)
 			os.MkdirAll(filepath.Dir(p), 0o777)
+			if target, ok := strings.CutPrefix(t, "symlink:"); ok {
+				os.Symlink(target, p)
+				continue
+			}
 			os.WriteFile(p, []byte(t), 0o666)
 		}
 		if pc.mod {
